@@ -44,8 +44,22 @@ def main():
     lines, ms = mutants(os.path.join('/repo', rel), lo, hi)
     rnd = random.Random(seed)
     rnd.shuffle(ms)
-    log = open('/var/tmp/sweep.log', 'a')
+    log = open(os.environ.get('SWEEP_LOG', '/var/tmp/sweep.log'), 'a')
+    only = None
+    if os.environ.get('SWEEP_SURVIVORS'):
+        # second pass: only the mutants that an earlier pass logged as SURVIVED (same seed = same list), now against another list of checks
+        only = set()
+        for l in open(os.environ['SWEEP_SURVIVORS']):
+            if l.startswith('SURVIVED') and (' ' + rel + ':') in l:
+                body = l.split('|')[0]
+                ln = int(body.split(rel + ':')[1].split()[0])
+                newtxt = body.split('  ->  ')[1].strip()
+                only.add((ln, newtxt))
     for (i, a, b, rep) in ms[:n]:
+        if only is not None:
+            cand = (lines[i][:a] + rep + lines[i][b:]).strip()[:110]
+            if (i + 1, cand) not in only:
+                continue
         scratch = '/var/tmp/vfsweep.%d' % os.getpid()
         subprocess.check_call(['rsync', '-a', '--delete', '--exclude', '.git', '--exclude', '*.o', '--exclude', '*.a', '--exclude', '.libs', '--exclude', '*.lo', '/repo/', scratch + '/'])
         new = lines[i][:a] + rep + lines[i][b:]
